@@ -472,21 +472,26 @@ Theorem open_code fuel s h m h1 h2 b0 rest :
   (closed h = false -> s_closed (strm s) = false /\ s_wr (strm s) = match md h with MA => true | MR => false end) ->
   (closed h = false -> eof h <> None) ->
   (forall k, last h = Some k -> lookup (toc h) k <> None) ->
-  lookup_env (locals s) "mode" = Some (VStr (mode_str m)) ->
+  (lookup_env (locals s) "mode" = Some (VStr (mode_str m)) \/
+   (lookup_env (locals s) "mode" = Some VNone /\ lookup_env (attrs s) "mode" = Some (VStr (mode_str m)))) ->
   let '(s', o) := exec fuel open_prog s in
   let '(f', h') := open_ (file s) h m in
   file s' = f' /\ (o = ONormal \/ o = OReturn VNone) /\ Rep s' h'.
 Proof.
-  intros Hfuel Hf L1 L2 L0 At Al Ae Ac As An Ain Lm.
-  destruct s as [f [p w c] at_ lo]. cbn in Hfuel, Hf, At, Al, Ae, Ac, As, An, Lm.
-  unfold open_prog, open_. cbn [file]. cbn [exec eval attrs]. rewrite Ac. cbn [truthy negb].
+  intros Hfuel Hf L1 L2 L0 At Al Ae Ac As An Ain Lm0.
+  destruct s as [f [p w c] at_ lo]. cbn in Hfuel, Hf, At, Al, Ae, Ac, As, An, Lm0.
+  unfold open_prog, open_. cbn [file]. cbn [exec].
+  assert (E1 : eval (mkst f (mks p w c) at_ lo) (ENot (EAttr "_closed")) = Val (VBool (negb (closed h)))).
+  { cbn [eval attrs]. rewrite Ac. reflexivity. }
+  rewrite E1. cbn [truthy].
   destruct (closed h) eqn:Ec; cbn [negb].
   2:{ (* already open: nothing happens *)
       cbn [exec eval]. split; [reflexivity|]. split; [right; reflexivity|].
       constructor; cbn [attrs strm]; try assumption; rewrite Ec; assumption. }
-  cbn [exec eval attrs locals]. rewrite Lm. cbn [truthy].
   assert (Tm : (match mode_str m with EmptyString => false | _ => true end) = true) by (destruct m; reflexivity).
-  rewrite Tm. cbn [set_attr attrs locals file strm]. rewrite !lookup_set_same.
+  assert (Em : eval (mkst f (mks p w c) at_ lo) (EOr (ELocal "mode") (EAttr "mode")) = Val (VStr (mode_str m))).
+  { cbn [eval attrs locals]. destruct Lm0 as [Lm|[Lm Am]]; rewrite Lm; cbn [truthy]; [rewrite Tm; reflexivity|rewrite Am; reflexivity]. }
+  cbn [exec]. rewrite Em. cbn [set_attr attrs locals file strm exec eval]. rewrite !lookup_set_same.
   set (at1 := set_env at_ "mode" (VStr (mode_str m))).
   set (hm := mkh (toc h) (last h) (eof h) m false).
   assert (Main : forall wflag, wflag = match m with MA => true | MR => false end ->
@@ -554,3 +559,81 @@ Proof.
     destruct M2 as [M2|M2]; subst oy; (split; [exact M1|]; split; [left; reflexivity|];
       apply (Fin true); try assumption; rewrite M9; reflexivity).
 Qed.
+
+(* ================= the other spellings: h[k], h[k] = v, with h: ================= *)
+Transparent read_header_prog map_blocks_prog.
+Opaque get_prog put_prog open_prog close_prog.
+
+Theorem getitem_code fuel s h k :
+  Rep s h -> lookup_env (locals s) "key" = Some (VBytes k) ->
+  let '(s', o) := exec fuel getitem_prog s in
+  file s' = file s /\ attrs s' = attrs s /\ s_wr (strm s') = s_wr (strm s) /\ s_closed (strm s') = s_closed (strm s) /\
+  o = out_of_res (get (file s) h k).
+Proof.
+  intros R L. pose proof (get_code fuel s h k R L) as G. unfold getitem_prog. cbn [exec].
+  destruct (exec fuel get_prog s) as [s1 o1]. destruct G as [G1 [G2 [G3 [G4 G5]]]].
+  assert (o1 <> ONormal /\ o1 <> OBreak) as [N1 N2].
+  { rewrite G5. unfold get. destruct (closed h); [|destruct (lookup (toc h) k)]; unfold out_of_res; split; discriminate. }
+  destruct o1; try contradiction; repeat split; assumption.
+Qed.
+
+Lemma put_result_kind f h k v : let '(_, _, r) := put f h k v in r = ROk \/ exists e, r = RErr e.
+Proof.
+  unfold put. destruct (closed h || match md h with MR => true | MA => false end); [right; eexists; reflexivity|].
+  destruct (lookup (toc h) k); [right; eexists; reflexivity|].
+  destruct (enc_block k v); [|right; eexists; reflexivity]. destruct (eof h); [left; reflexivity|right; eexists; reflexivity].
+Qed.
+
+Theorem setitem_code fuel s h k v :
+  Rep s h -> lookup_env (locals s) "key" = Some (VBytes k) -> lookup_env (locals s) "val" = Some (VBytes v) ->
+  let '(s', o) := exec fuel setitem_prog s in
+  let '(f', h', r) := put (file s) h k v in
+  file s' = f' /\ Rep s' h' /\ o = out_of_res r.
+Proof.
+  intros R Lk Lv. unfold setitem_prog. cbn [exec eval]. rewrite Lv.
+  set (s0 := set_local s "value" (VBytes v)).
+  assert (R0 : Rep s0 h) by (destruct R; constructor; assumption).
+  assert (Lk0 : lookup_env (locals s0) "key" = Some (VBytes k)) by (unfold s0; cbn [set_local locals]; rewrite lookup_set_other by discriminate; exact Lk).
+  assert (Lv0 : lookup_env (locals s0) "value" = Some (VBytes v)) by (unfold s0; cbn [set_local locals]; apply lookup_set_same).
+  pose proof (put_code fuel s0 h k v R0 Lk0 Lv0) as P. change (file s0) with (file s) in P.
+  pose proof (put_result_kind (file s) h k v) as K.
+  destruct (exec fuel put_prog s0) as [s1 o1]. destruct (put (file s) h k v) as [[f' h'] r].
+  destruct P as [P1 [P2 P3]]. subst o1.
+  destruct K as [K|[e K]]; subst r; [|destruct e]; cbn [out_of_res]; (split; [exact P1|split; [exact P2|reflexivity]]).
+Qed.
+
+Theorem exit_code fuel s h :
+  Rep s h -> (lookup_env (attrs s) "mode" = Some (VStr "r") \/ lookup_env (attrs s) "mode" = Some (VStr "a")) ->
+  let '(s', o) := exec fuel exit_prog s in
+  file s' = file s /\ Rep s' (close_ h) /\ o = ONormal.
+Proof.
+  intros R M. pose proof (close_code fuel s h R M) as C. unfold exit_prog. cbn [exec].
+  destruct (exec fuel close_prog s) as [s1 o1]. destruct C as [C1 [C2 [C3 C4]]]. subst o1. split; [exact C1|split; [exact C2|reflexivity]].
+Qed.
+
+(* `with h:` on a closed handle object whose mode attribute is r or a: opens it exactly as open(mode) would, and hands back the object *)
+Theorem enter_code fuel s h m h1 h2 b0 rest :
+  (List.length (file s) < fuel)%nat ->
+  file s = (mk_header h1 h2 b0 ++ rest)%list -> List.length h1 = 16%nat -> len h2 < 65536 -> len b0 < 4294967296 ->
+  lookup_env (attrs s) "_toc" = Some (VToc (toc h)) -> lookup_env (attrs s) "_last" = Some (vopt_bytes (last h)) ->
+  lookup_env (attrs s) "_eof" = Some (vopt_int (eof h)) -> lookup_env (attrs s) "_closed" = Some (VBool (closed h)) ->
+  (closed h = false -> s_closed (strm s) = false /\ s_wr (strm s) = match md h with MA => true | MR => false end) ->
+  (closed h = false -> eof h <> None) ->
+  (forall k, last h = Some k -> lookup (toc h) k <> None) ->
+  lookup_env (attrs s) "mode" = Some (VStr (mode_str m)) ->
+  let '(s', o) := exec fuel enter_prog s in
+  let '(f', h') := open_ (file s) h m in
+  file s' = f' /\ o = OReturn VSelf /\ Rep s' h'.
+Proof.
+  intros Hfuel Hf L1 L2 L0 At Al Ae Ac As An Ain Am. unfold enter_prog. cbn [exec eval].
+  set (s0 := set_local s "mode" VNone).
+  assert (Lm : lookup_env (locals s0) "mode" = Some (VStr (mode_str m)) \/
+               (lookup_env (locals s0) "mode" = Some VNone /\ lookup_env (attrs s0) "mode" = Some (VStr (mode_str m)))).
+  { right. split; [unfold s0; cbn [set_local locals]; apply lookup_set_same|exact Am]. }
+  pose proof (open_code fuel s0 h m h1 h2 b0 rest Hfuel Hf L1 L2 L0 At Al Ae Ac As An Ain Lm) as O.
+  change (file s0) with (file s) in O.
+  destruct (exec fuel open_prog s0) as [s1 o1]. destruct (open_ (file s) h m) as [f' h'].
+  destruct O as [O1 [O2 O3]]. destruct O2 as [O2|O2]; subst o1; cbn [eval]; (split; [exact O1|split; [reflexivity|exact O3]]).
+Qed.
+
+Transparent get_prog put_prog open_prog close_prog read_header_prog map_blocks_prog.
